@@ -101,12 +101,14 @@ struct Case {
     inter: Vec<usize>,
     /// message index = position x stride (the detector schedules its regular table refresh by index distance)
     stride: u32,
+    /// Some(k): the indices of the messages from position k on are 100 001 higher (one regular refresh, at position k)
+    jump_at: Option<usize>,
     /// boot time of the first ECU's first boot (the recorder's clock); usually BASE, 0 = a clock that starts at the epoch
     base: u64,
 }
 
 fn case_json(c: &Case) -> Value {
-    json!({"family": "boots", "ecus": c.ecus.iter().map(|bs| bs.iter().map(|b| json!({"ts_us": PROFILES[b.profile], "delay_us": DELAYS[b.delay], "off_us": OFFS[b.off], "perm": b.perm, "p": [b.profile, b.delay, b.off, b.perm]})).collect::<Vec<_>>()).collect::<Vec<_>>(), "interleaving": c.inter, "index_stride": c.stride, "base_us": c.base})
+    json!({"family": "boots", "ecus": c.ecus.iter().map(|bs| bs.iter().map(|b| json!({"ts_us": PROFILES[b.profile], "delay_us": DELAYS[b.delay], "off_us": OFFS[b.off], "perm": b.perm, "p": [b.profile, b.delay, b.off, b.perm]})).collect::<Vec<_>>()).collect::<Vec<_>>(), "interleaving": c.inter, "index_stride": c.stride, "index_jump_at": c.jump_at, "base_us": c.base})
 }
 
 fn run_case(ctx: &mut Ctx, c: &Case) {
@@ -134,7 +136,8 @@ fn run_case(ctx: &mut Ctx, c: &Case) {
         let (recv, ts, bi) = per[e].0[cursors[e]];
         cursors[e] += 1;
         let name = [b'E', b'C', b'U', b'A' + e as u8];
-        msgs.push(mk_msg(msgs.len() as u32 * c.stride, &name, recv, ts, true, Some((MTIN_LOG_INFO_V, 0, *b"APID", *b"CTID")), vec![msgs.len() as u8]));
+        let jump = if c.jump_at.map(|k| msgs.len() >= k).unwrap_or(false) { 100_001 } else { 0 };
+        msgs.push(mk_msg(msgs.len() as u32 * c.stride + jump, &name, recv, ts, true, Some((MTIN_LOG_INFO_V, 0, *b"APID", *b"CTID")), vec![msgs.len() as u8]));
         owner.push((e, bi));
     }
     let res = run_stage(&[&msgs]);
@@ -171,7 +174,8 @@ fn run_case(ctx: &mut Ctx, c: &Case) {
     let mut map: BTreeMap<(usize, usize), u32> = BTreeMap::new();
     let mut rev: BTreeMap<u32, (usize, usize)> = BTreeMap::new();
     for (m, _) in &res.delivered {
-        let o = owner[(m.index / c.stride) as usize];
+        let pos = if c.jump_at.is_some() && m.index >= 100_001 { (m.index - 100_001) / c.stride } else { m.index / c.stride };
+        let o = owner[pos as usize];
         if let Some(prev) = map.insert(o, m.lifecycle) {
             if prev != m.lifecycle {
                 ctx.violation("boot_split", disc, cj, format!("messages of ECU {} boot {} are in different lifecycles", o.0, o.1));
@@ -239,7 +243,7 @@ pub fn history_streams(thorough: bool, f: &mut dyn FnMut(&[([u8; 4], u64, u32)],
     for nb in 1..=2usize {
         for bs in ecu_variants(nb, &all_p, &[0, 1, 2], &[0, 1, 2, 3], true) {
             let n: usize = bs.iter().map(|b| PROFILES[b.profile].len()).sum();
-            if !emit(&Case { ecus: vec![bs], inter: vec![0; n], stride: 1, base: BASE }, f) {
+            if !emit(&Case { ecus: vec![bs], inter: vec![0; n], stride: 1, jump_at: None, base: BASE }, f) {
                 return;
             }
         }
@@ -259,7 +263,7 @@ pub fn history_streams(thorough: bool, f: &mut dyn FnMut(&[([u8; 4], u64, u32)],
                 }
                 let mut go = true;
                 enumr::interleavings(&[la, lb], &mut |il| {
-                    go = emit(&Case { ecus: vec![a.clone(), b.clone()], inter: il.to_vec(), stride: 1, base: BASE }, f);
+                    go = emit(&Case { ecus: vec![a.clone(), b.clone()], inter: il.to_vec(), stride: 1, jump_at: None, base: BASE }, f);
                     go
                 });
                 if !go {
@@ -324,7 +328,7 @@ impl Prop for C08 {
             for bs in vars {
                 if ctx.mine() {
                     let n: usize = bs.iter().map(|b| PROFILES[b.profile].len()).sum();
-                    run_case(ctx, &Case { ecus: vec![bs], inter: vec![0; n], stride: 1, base: BASE });
+                    run_case(ctx, &Case { ecus: vec![bs], inter: vec![0; n], stride: 1, jump_at: None, base: BASE });
                     if ctx.sum.evaluations % 4096 == 0 && ctx.out_of_time() {
                         done = false;
                         break;
@@ -344,7 +348,7 @@ impl Prop for C08 {
             for bs in vars1 {
                 if ctx.mine() {
                     let n: usize = bs.iter().map(|b| PROFILES[b.profile].len()).sum();
-                    run_case(ctx, &Case { ecus: vec![bs], inter: vec![0; n], stride: 100_001, base: BASE });
+                    run_case(ctx, &Case { ecus: vec![bs], inter: vec![0; n], stride: 100_001, jump_at: None, base: BASE });
                 }
             }
             let va = ecu_variants(2, &[0, 2, 5], &[0, 2], &[0, 3], true);
@@ -358,10 +362,25 @@ impl Prop for C08 {
                     }
                     enumr::interleavings(&[la, lb], &mut |il| {
                         if ctx.mine() {
-                            run_case(ctx, &Case { ecus: vec![a.clone(), b.clone()], inter: il.to_vec(), stride: 100_001, base: BASE });
+                            run_case(ctx, &Case { ecus: vec![a.clone(), b.clone()], inter: il.to_vec(), stride: 100_001, jump_at: None, base: BASE });
                         }
                         true
                     });
+                }
+            }
+            ctx.end_family(true);
+        }
+        // (a3) one index jump: exactly one regular refresh, at every position of the stream
+        {
+            let vars1 = ecu_variants(2, &all_p, &all_d, &all_o, true);
+            ctx.begin_family("index_jump", &format!("one ECU, boots=2, all profiles/delays/offs/perms ({} traces) x the indices jump by 100 001 at every position k >= 1 (one regular refresh of the published table, at message k)", vars1.len()));
+            for bs in vars1 {
+                let n: usize = bs.iter().map(|b| PROFILES[b.profile].len()).sum();
+                for k in 1..n {
+                    if ctx.mine() {
+                        ctx.landmark("index_jump");
+                        run_case(ctx, &Case { ecus: vec![bs.clone()], inter: vec![0; n], stride: 1, jump_at: Some(k), base: BASE });
+                    }
                 }
             }
             ctx.end_family(true);
@@ -374,7 +393,7 @@ impl Prop for C08 {
                     if ctx.mine() {
                         let n: usize = bs.iter().map(|b| PROFILES[b.profile].len()).sum();
                         ctx.landmark("epoch_zero");
-                        run_case(ctx, &Case { ecus: vec![bs], inter: vec![0; n], stride: 1, base: 0 });
+                        run_case(ctx, &Case { ecus: vec![bs], inter: vec![0; n], stride: 1, jump_at: None, base: 0 });
                     }
                 }
             }
@@ -384,7 +403,7 @@ impl Prop for C08 {
                     let (la, lb) = (PROFILES[a[0].profile].len(), PROFILES[b[0].profile].len());
                     enumr::interleavings(&[la, lb], &mut |il| {
                         if ctx.mine() {
-                            run_case(ctx, &Case { ecus: vec![a.clone(), b.clone()], inter: il.to_vec(), stride: 1, base: 0 });
+                            run_case(ctx, &Case { ecus: vec![a.clone(), b.clone()], inter: il.to_vec(), stride: 1, jump_at: None, base: 0 });
                         }
                         true
                     });
@@ -411,7 +430,7 @@ impl Prop for C08 {
                     }
                     let cont = enumr::interleavings(&[la, lb], &mut |il| {
                         if ctx.mine() {
-                            run_case(ctx, &Case { ecus: vec![a.clone(), b.clone()], inter: il.to_vec(), stride: 1, base: BASE });
+                            run_case(ctx, &Case { ecus: vec![a.clone(), b.clone()], inter: il.to_vec(), stride: 1, jump_at: None, base: BASE });
                         }
                         true
                     });
@@ -439,7 +458,7 @@ impl Prop for C08 {
                     let l: Vec<usize> = [a, b, c3].iter().map(|v| PROFILES[v[0].profile].len()).collect();
                     let cont = enumr::interleavings(&l, &mut |il| {
                         if ctx.mine() {
-                            run_case(ctx, &Case { ecus: vec![a.clone(), b.clone(), c3.clone()], inter: il.to_vec(), stride: 1, base: BASE });
+                            run_case(ctx, &Case { ecus: vec![a.clone(), b.clone(), c3.clone()], inter: il.to_vec(), stride: 1, jump_at: None, base: BASE });
                         }
                         true
                     });
@@ -471,7 +490,8 @@ impl Prop for C08 {
             .collect();
         let inter: Vec<usize> = case["interleaving"].as_array().unwrap().iter().map(|x| x.as_u64().unwrap() as usize).collect();
         let stride = case["index_stride"].as_u64().unwrap_or(1) as u32;
+        let jump_at = case["index_jump_at"].as_u64().map(|x| x as usize);
         let base = case["base_us"].as_u64().unwrap_or(BASE);
-        run_case(ctx, &Case { ecus, inter, stride, base });
+        run_case(ctx, &Case { ecus, inter, stride, jump_at, base });
     }
 }
